@@ -41,6 +41,8 @@ type c16Dest struct {
 	C bool
 	D string
 	E []string
+	// filler fields: wide schemas (operands of 9 and more fields)
+	F, G, H, I, J, K, L, M, N, O string
 }
 
 // field definitions: several variants per key so that "later operand wins" is observable
@@ -61,6 +63,18 @@ var c16Fields = []c16FieldDef{
 	{"d", func() z.ZogSchema { return z.String().Len(2) }},
 	{"e", func() z.ZogSchema { return z.Slice(z.String().Min(2)).Min(2) }},
 	{"e", func() z.ZogSchema { return z.Slice(z.String()).Max(1).Required() }},
+}
+
+// c16Wide: index of the first filler definition (two conflicting variants for each of the keys f..o)
+var c16Wide = len(c16Fields)
+
+func init() {
+	for _, k := range []string{"f", "g", "h", "i", "j", "k", "l", "m", "n", "o"} {
+		k := k
+		c16Fields = append(c16Fields,
+			c16FieldDef{k, func() z.ZogSchema { return z.String().Min(2) }},
+			c16FieldDef{k, func() z.ZogSchema { return z.String().Max(1).Required() }})
+	}
 }
 
 // model of one live schema
@@ -374,7 +388,10 @@ func genC16(rt *rapid.T, maxOps int) c16Case {
 		}
 		switch kind {
 		case "base":
-			f := rapid.SliceOfNDistinct(rapid.SampledFrom(defs), 1, 5, rapid.ID[int]).Draw(rt, "fields")
+			f := rapid.SliceOfNDistinct(rapid.SampledFrom(defs[:c16Wide]), 1, 5, rapid.ID[int]).Draw(rt, "fields")
+			if rapid.IntRange(0, 5).Draw(rt, "wide") == 0 {
+				f = append(f, rapid.SliceOfNDistinct(rapid.SampledFrom(defs[c16Wide:]), 4, 12, rapid.ID[int]).Draw(rt, "wfields")...)
+			}
 			c.Ops = append(c.Ops, c16Op{Op: "base", Fields: f, Tests: rapid.IntRange(0, 5).Draw(rt, "nt"), Posts: rapid.IntRange(0, 3).Draw(rt, "np")})
 			liveKeys = append(liveKeys, keysOf(f))
 			nlive++
@@ -423,7 +440,10 @@ func genC16(rt *rapid.T, maxOps int) c16Case {
 			nlive++
 		case "extend":
 			src := rapid.IntRange(0, nlive-1).Draw(rt, "src")
-			f := rapid.SliceOfNDistinct(rapid.SampledFrom(defs), 1, 3, rapid.ID[int]).Draw(rt, "ef")
+			f := rapid.SliceOfNDistinct(rapid.SampledFrom(defs[:c16Wide]), 1, 3, rapid.ID[int]).Draw(rt, "ef")
+			if rapid.IntRange(0, 5).Draw(rt, "ewide") == 0 {
+				f = append(f, rapid.SliceOfNDistinct(rapid.SampledFrom(defs[c16Wide:]), 4, 12, rapid.ID[int]).Draw(rt, "ewf")...)
+			}
 			c.Ops = append(c.Ops, c16Op{Op: "extend", Src: src, Fields: f})
 			liveKeys = append(liveKeys, append(append([]string(nil), liveKeys[src]...), keysOf(f)...))
 			nlive++
@@ -465,6 +485,7 @@ func genC16(rt *rapid.T, maxOps int) c16Case {
 		"d": {model.Str("dd"), model.Str("d"), model.Nil()},
 		"e": {model.List(model.Str("e1"), model.Str("e2")), model.List(model.Str("e")), model.Nil()},
 	}
+	wideKeys := []string{"f", "g", "h", "i", "j", "k", "l", "m", "n", "o"}
 	for i, k := 0, rapid.IntRange(2, 3).Draw(rt, "ninputs"); i < k; i++ {
 		in := model.Val{T: "map"}
 		for _, key := range []string{"a", "b", "c", "d", "e"} {
@@ -472,6 +493,17 @@ func genC16(rt *rapid.T, maxOps int) c16Case {
 			if !v.IsNil() {
 				in.M = append(in.M, model.KV{K: key, V: v})
 			}
+		}
+		// filler keys: one of "w" (fits Max(1)), "ww" (fits Min(2)) or absent, by a single draw per input
+		pat := rapid.IntRange(0, 59048).Draw(rt, "wpat")
+		for _, key := range wideKeys {
+			switch pat % 3 {
+			case 0:
+				in.M = append(in.M, model.KV{K: key, V: model.Str("w")})
+			case 1:
+				in.M = append(in.M, model.KV{K: key, V: model.Str("ww")})
+			}
+			pat /= 3
 		}
 		c.Inputs = append(c.Inputs, in)
 	}
@@ -492,7 +524,7 @@ func dedupe(a []string) []string {
 
 func TestC16(t *testing.T) {
 	h := hh.Start(t, "C16",
-		"cases = histories of 3..14 (quick) / 3..30 (thorough) steps over a growing set of live schemas: new base (1-5 fields from a pool with conflicting variants per key, 0-5 struct tests, 0-3 PostTransforms), Pick / Omit (string keys or map[string]bool incl. false entries), Extend, Merge (1-3 further operands), later TestFunc / PostTransform on any live schema; 2-3 random inputs; non-trivial = a test or PostTransform is added to a schema that has a sibling derived from the same base, or a Merge of >=3 operands with a key conflict; distinct = FNV-1a of the case JSON",
+		"cases = histories of 3..14 (quick) / 3..30 (thorough) steps over a growing set of live schemas: new base (1-5 fields from a pool with conflicting variants per key, a sixth of them widened by 4-12 filler fields, 0-5 struct tests, 0-3 PostTransforms), Pick / Omit (string keys or map[string]bool incl. false entries), Extend, Merge (1-3 further operands), later TestFunc / PostTransform on any live schema; 2-3 random inputs; non-trivial = a test or PostTransform is added to a schema that has a sibling derived from the same base, or a Merge of >=3 operands with a key conflict; distinct = FNV-1a of the case JSON",
 		"model-based: each live schema is mirrored by (field map, test ids, PostTransform ids) updated with the documented set semantics (later operand wins, tests and PostTransforms kept, concatenated in operand order for Merge); after EVERY step EVERY live schema must behave on every input exactly like a schema written out by hand from its model: same issues, same destination, same sequence of callback invocations",
 		"keys picked / omitted are drawn from the operand's own keys (picking a missing key is misconfiguration)")
 	defer h.Finish()
